@@ -111,6 +111,15 @@ Theorem C15_received_time_irrelevant : forall h h',
 Proof. exact restamp_invariant. Qed.
 Print Assumptions C15_received_time_irrelevant.
 
+(** Persisting and restoring an instrument's state (a serde round trip of the InstrumentState:
+    position, market data, orders, tear sheet) between any two events changes nothing: a delivery
+    with restore steps runs exactly like the events alone, so every theorem here holds across
+    restores. (That the implementation's round trip IS the identity is checked by the
+    correspondence harness on every restore step.) *)
+Theorem C15_restore_invariant : forall h, perun h = srun (drop_restores h).
+Proof. exact perun_restore_invariant. Qed.
+Print Assumptions C15_restore_invariant.
+
 (** Inside the known class the code stores 0, the reference price is the position's entry price
     and the documented estimate there is minus the entry fees: the deviation is exactly the
     (pro-rata) fee of the opening fill, so it vanishes iff that fee is 0. *)
